@@ -41,9 +41,17 @@ def member_templates():
     ]
 
 
-def pool(tier, seed):
+NSIG = 9      # the first NSIG templates raise no cross-path signal
+
+
+def pool(tier, seed, signals=True):
     rng = random.Random(seed)
     ts = member_templates()
+    if not signals:
+        ts = ts[:NSIG] + [lambda: [L.fn("stop", L.eq(L.hdr(1), L.term("b")))], lambda: [L.fn("skip", L.fn("empty", L.hdr(0))), L.hdr(1)],
+                          lambda: [L.when(L.hdr(1), L.fn("advance", L.term(1))), L.fn("counter", quals=["v"])],
+                          lambda: [L.fn("fail_and_stop", L.fn("not", L.hdr(0)))], lambda: [L.fn("no")],
+                          lambda: [L.when(L.fn("last"), L.fn("push", L.term("l"), L.fn("line_number")))]]
     fl = mcrun.files(3)
     nm_choices = [2] if tier == "quick" else [2, 2, 3]
     n_groups = 300 if tier == "quick" else 3000
@@ -71,7 +79,7 @@ def pool(tier, seed):
                        "noRun": False, "nexts": 0, "noDefaultPrint": False}
                 members.append({"prog": prog, "cfg": cfg})
             cases.append({"tid": tid, "kind": "serial" if method in jointrun.SERIAL else "byline", "allAgree": bool(agree),
-                          "coordinated": method not in ("collect_paths", "fast_forward_paths"), "records": f, "members": members, "method": method})
+                          "coordinated": method not in ("collect_paths", "fast_forward_paths"), "signals": bool(signals), "records": f, "members": members, "method": method})
             tid += 1
     return cases
 
@@ -81,7 +89,7 @@ def tlc_pool(cases, dev=()):
     path = os.path.join(base, f"gpool-{os.getpid()}-{len(dev)}.ndjson")
     with open(path, "w") as f:
         for c in cases:
-            f.write(json.dumps({"tid": c["tid"], "kind": c["kind"], "allAgree": c["allAgree"], "coordinated": c["coordinated"], "file": L.enc_file(c["records"]),
+            f.write(json.dumps({"tid": c["tid"], "kind": c["kind"], "allAgree": c["allAgree"], "coordinated": c["coordinated"], "signals": c["signals"], "file": L.enc_file(c["records"]),
                                 "members": [{"prog": runtrace.strip_private(m["prog"]), "cfg": m["cfg"]} for m in c["members"]]}, separators=(",", ":")) + "\n")
     devs = "{" + ", ".join(f'"{d}"' for d in sorted(dev)) + "}"
     name = f"_gen_MC_GroupRun_{os.getpid()}_{len(dev)}.cfg"
@@ -160,9 +168,9 @@ def _diff(got, want):
     return sorted(set(out))
 
 
-def run_pool(rep, tier, judged, pid):
+def run_pool(rep, tier, judged, pid, signals=True):
     """judged: subset of {"valid", "allValid", "started", "stopped", "matchCount", "scanCount", "returned", "vars", "yielded", "raised"}"""
-    cases = pool(tier, common.seed() + 4242)
+    cases = pool(tier, common.seed() + 4242, signals=signals)
     res = tlc_pool(cases)
     rep.add_tlc(f"MC_GroupRun: closed pool of {len(cases)} groups (member templates incl. the cross-path signals x files of <= 3 records x 6 methods), joint properties", res)
     if res.invariant_violated:
@@ -190,6 +198,6 @@ def run_pool(rep, tier, judged, pid):
         else:
             unjudged += 1
             rep.extra.setdefault("group_pool_mismatches_in_unjudged_fields", []).append({"fields": d, **info})
-    rep.extra.update({"group_pool_cases": len(cases), "group_pool_cases_where_a_signal_or_failure_shows": with_signal_effect, "group_pool_unjudged": unjudged})
+    rep.extra.update({"group_pool_with_signals": bool(signals), "group_pool_cases": len(cases), "group_pool_cases_where_a_signal_or_failure_shows": with_signal_effect, "group_pool_unjudged": unjudged})
     rep.evaluations += len(cases)
     rep.traces += len(cases)
